@@ -295,7 +295,7 @@ def warning_conditions(prog, an, rep):
                   'the three filters', f.where(c.nodes[cn]), 'a commit can '
                   'be skipped for another reason (its loss would go '
                   'unnoticed)', path=c.describe_path(p2))
-    rep.check(len(conts) == 3, R, f.qname + ': three skip sites',
+    rep.check(1 <= len(conts) <= 3, R, f.qname + ': at most three skip sites',
               f.where(inner), '%d continue statements in the commit loop' %
               len(conts))
     for st in inits:
